@@ -14,8 +14,8 @@ CASES_ARE_COUNTED = True
 TIERS = {'quick': {'runs': 16000, 'budget_s': 45}, 'thorough': {'runs': 1200000, 'budget_s': 900}}
 RULE = ('one run = one seeded history of up to 30 database operations on one engine over predicates p/0 p/1 p/2 q/1 r/3 flag/0 and two '
         'never-asserted ones, ground facts, patterns ground / partial / all-variable / repeated-variable; each op goes through a seeded route '
-        '(assert_fact API, query() API, compiled wrapper taking the goal as argument, compiled clause with the goal inline) and form (inline term '
-        'or a variable bound to it); retracts are exhausted, abandoned after k answers (close/drop) or held suspended across other ops. '
+        '(assert_fact API, query() API, compiled wrapper taking the goal as argument, compiled clause with the goal inline) and form (inline term, '
+        'a variable bound to it, or ONE goal term / goal variable per predicate kept by the caller for the whole history whose argument variables are re-bound per operation); retracts are exhausted, abandoned after k answers (close/drop) or held suspended across other ops. '
         'A case = one operation compared with the list model followed by a full read-back of all 10 predicates, with all arguments unbound and with each argument position bound to every value stored there now or earlier; non-trivial = the predicate '
         'had >= 1 fact or the op changed the store; distinct = hash of (op kind, route, form, predicate, pattern, contents of that predicate in the model)')
 ASSUMPTIONS = [
@@ -26,7 +26,7 @@ ASSUMPTIONS = [
 COMPONENTS = {'real': ['yldprolog.engine fact store, builtins asserta/assertz/retract/retractall, clear, query', 'compiled wrapper clauses (real compiler output)'],
               'stub': ['consumer / scheduler of the retract generators'],
               'oracle': ['ordered-list model (ypsim.models.FactStore) compared op by op, full read-back after every op']}
-REQUIRED_PROBES = ('fault_retractall_overflow', 'fault_assert_overflow', 'deep_fact_stored', 'op_badgoal', 'bound_argument_readbacks', 'op_assert', 'op_retract', 'op_retractall', 'op_query', 'op_clear', 'route_fact', 'route_query', 'route_wrap', 'route_inline',
+REQUIRED_PROBES = ('form_reused_goal_object', 'fault_retractall_overflow', 'fault_assert_overflow', 'deep_fact_stored', 'op_badgoal', 'bound_argument_readbacks', 'op_assert', 'op_retract', 'op_retractall', 'op_query', 'op_clear', 'route_fact', 'route_query', 'route_wrap', 'route_inline',
                    'form_bound', 'retract_abandoned', 'retract_suspended_across_ops', 'op_on_predicate_without_facts', 'arity0_ops')
 
 KEYS = [('p', 0), ('p', 1), ('p', 2), ('q', 1), ('r', 3), ('flag', 0), ('findall', 1), ('atom', 1), ('zz', 1), ('yy', 0)]      # findall/1: a name shared with a builtin of another arity; atom/1: named like an engine helper
@@ -79,9 +79,15 @@ def gen(seed, tier):
     keyset = rng.sample(range(len(KEYS)), nkeys)
     small_vals = rng.choice((2, 3, 7, 12))
 
+    p_reused = rng.choice((0.0, 0.0, 0.3, 0.6))
+
     def route_form(kinds):
         route = rng.choice(kinds)
         form = 'bound' if (route in ('query', 'wrap') and rng.random() < p_bound) else 'inline'
+        if route in ('query', 'wrap') and rng.random() < p_reused:
+            # the caller keeps ONE goal term per predicate (and one variable holding it) for the whole history and
+            # only changes the bindings of its argument variables from operation to operation
+            form = rng.choice(('reused', 'reused-var'))
         return route, form
     if rng.random() < 0.25:
         # bulk mode: one predicate gets many facts first (size-dependent paths: indexes, caches)
@@ -182,6 +188,15 @@ class KeptAtoms:
         return self.yp.variable()
 
 
+class HeldGroup:
+    def __init__(self, tasks):
+        self.tasks = tasks
+
+    def close(self):
+        for t in reversed(self.tasks):
+            t.close()
+
+
 class Exec:
     def __init__(self, log):
         from yldprolog.engine import YP, unify
@@ -192,6 +207,7 @@ class Exec:
         self.load_wrappers()
         self.model = FactStore()
         self.seen = {}
+        self.persistent = {}  # key index -> (argument variables, goal term, goal variable), made once and reused
         self.task = None      # suspended retract: dict(task, key, pattern (model), pargs (engine), held, snap, pos)
 
     def load_wrappers(self):
@@ -207,6 +223,24 @@ class Exec:
         held = None
         if route == 'inline':
             return yp.query('i_%s_%s_%d' % (kind, name, ar), pargs), pargs, None
+        if form in ('reused', 'reused-var'):
+            if ki not in self.persistent:
+                pv = [yp.variable() for _ in range(ar)]
+                self.persistent[ki] = (pv, yp.functor(name, pv) if ar else self.b.atom(name), yp.variable())
+            pv, pterm, gv = self.persistent[ki]
+            tasks = []
+            for v, a in zip(pv, pargs):
+                t = GenTask(self.unify(v, a))
+                t.step()
+                tasks.append(t)
+            term = pterm
+            if form == 'reused-var':
+                t = GenTask(self.unify(gv, pterm))
+                t.step()
+                tasks.append(t)
+                term = gv
+            self.log.count('form_reused_goal_object')
+            return yp.query(kind if route == 'query' else 'w_%s' % kind, [term]), pargs, HeldGroup(tasks)
         term = yp.functor(name, pargs) if ar else yp.atom(name)
         if route == 'wrap':
             return yp.query('w_%s%s' % (kind, '_v' if form == 'bound' else ''), [term]), pargs, None
@@ -286,7 +320,7 @@ def execute(plan):
                 if key[1] == 0:
                     log.count('arity0_ops')
                 if route == 'fact':
-                    yp.assert_fact(yp.atom(key[0]), [TM.build(ex.b, TM.T(t), {}) for t in row], not front)
+                    yp.assert_fact(ex.b.atom(key[0]), [TM.build(ex.b, TM.T(t), {}) for t in row], not front)
                     n_ans = 1
                 else:
                     g, pargs, held = ex.goal('asserta' if front else 'assertz', route, form, ki, row)
@@ -551,12 +585,12 @@ def simplify(plan):
         if op[0] == 'assert':
             if op[2] != 'fact':
                 alts.append(op[:2] + ['fact', 'inline'] + op[4:])
-            if op[3] == 'bound':
+            if op[3] != 'inline':
                 alts.append(op[:3] + ['inline'] + op[4:])
             if op[1]:
                 alts.append([op[0], False] + op[2:])
         elif op[0] in ('retract', 'retractall', 'rstart'):
-            if op[2] == 'bound':
+            if op[2] != 'inline':
                 alts.append(op[:2] + ['inline'] + op[3:])
             if op[1] != 'query':
                 alts.append([op[0], 'query', op[2] if op[1] == 'wrap' else 'inline'] + op[3:])
